@@ -308,6 +308,12 @@ impl<C: Config> Engine<C> {
         drop(batch);
 
         // wait for all tasks to complete
+        #[cfg(feature = "verif")]
+        qbice_storage::verif::task_point(
+            "dp_wait",
+            qbice_storage::verif::PointKind::Await,
+        )
+        .await;
         notified.await;
 
         let mut write_tx = Arc::try_unwrap(write_tx)
